@@ -283,6 +283,14 @@ func (app *Application) submitEvidence(
 	if b {
 		return roothash.ErrDuplicateEvidence
 	}
+
+	// Record the evidence and slash in a transaction so that a failure (e.g. evidence against a
+	// key that is not a registered node) leaves no partial state behind.
+	ctx = ctx.NewTransaction()
+	defer ctx.Close()
+
+	state = roothashState.NewMutableState(ctx.State())
+
 	if err = state.SetEvidenceHash(ctx, rtState.Runtime.ID, round, evHash); err != nil {
 		return err
 	}
@@ -295,6 +303,8 @@ func (app *Application) submitEvidence(
 	); err != nil {
 		return fmt.Errorf("error slashing runtime node: %w", err)
 	}
+
+	ctx.Commit()
 
 	return nil
 }
